@@ -16,9 +16,11 @@ try:
     hooks_commits = [l.split()[0] for l in out.splitlines() if l.split(" ", 1)[1].startswith("verif-hook:")]
 except Exception: pass
 checks = []; na = []; served = []
+# a property is claimed only when the coordinator has validated its check: listed in props/CLAIMED
+claimed_ids = set(l.strip() for l in open(os.path.join(H, "props/CLAIMED")) if l.strip() and not l.startswith("#"))
 for p in allp:
     i = p["id"]
-    if i in props and props[i].get("claimed", True):
+    if i in props and i in claimed_ids:
         c = props[i]; served.append(i)
         checks.append({
             "property_id": i,
